@@ -1167,6 +1167,8 @@ class Program:
             self.inlined += [(c, [f]) for c, f in normalize.inline_local_closure_calls(crates, table)]
             for d in crates:
                 for fd in d['fns']:
+                    if fd.get('desugared'):
+                        normalize.thread_const_bool_gotos(fd)
                     if fd.get('inlined'):
                         normalize.thread_bool_returns(fd)
         for d in crates:
